@@ -1,5 +1,5 @@
 CONSTANTS Ks = {1}
           Lean = FALSE
-INIT Init
+INIT GenInit
 NEXT NextGen
 INVARIANT WellFormed
